@@ -53,7 +53,7 @@ def fracs(tier):
     return [f for f in range(10000) if f % 50 == 0 or f % 10 == 5]
 
 
-def plan(tier, seed):
+def _plan(tier, seed):
     shards = []
     for sign in ('', '-'):
         for ip in IPS:
@@ -253,6 +253,9 @@ def run_scales(shard, ctx):
 
 
 def run_shard(shard, ctx):
+    if isinstance(shard, dict) and 'mixed' in shard:
+        from ..mixed import run_mixed
+        return run_mixed(ctx, ID, shard['n'])
     if 'replay' in shard and shard['replay'].get('how') == 'scales':
         c = shard['replay']
         return run_scales({'text': c['text'], 'digits': c['digits'], 'fn': c['fn'], 'as_int': True}, ctx)
@@ -288,3 +291,8 @@ def finish(r, tier, seed):
     return {'helper_calls': reached, 'exhaustive': tier == 'thorough',
             'exhaustive_subspaces': ['all 4-digit fractions 0..9999 for each sign x integer part x digits -3..6 x 3 functions'
                                      ] if tier == 'thorough' else ['every ...5 tie and every 50th fraction of that grid']}
+
+
+def plan(tier, seed):
+    # 'mixed': nests over the whole function set that use at least one function of this property (vf/mixed.py)
+    return _plan(tier, seed) + [{'mixed': k, 'n': 3 if tier == 'quick' else 60} for k in range(3 if tier == 'quick' else 8)]
